@@ -254,3 +254,38 @@ def libOpN (op : Nat) (vs : List Val) : Except Err Val :=
     else .error .kind
 
 end Moc.Store
+
+namespace Moc.Store
+
+/-! ### Lock sections taken by one call (observed through the `verif_hooks` feature) -/
+
+inductive LockEv where
+  | rAcq | rRel | wAcq | wRel
+  deriving DecidableEq, Repr
+
+/-- The lock sections of a call: `add/copy/drop` = one write section; `get` = one read section;
+    operations = one read section, then one write section iff the read phase succeeded. -/
+def lockTrace (s : St) : Call → List LockEv
+  | .add _ => [.wAcq, .wRel]
+  | .copy _ => [.wAcq, .wRel]
+  | .drop _ => [.wAcq, .wRel]
+  | .get _ => [.rAcq, .rRel]
+  | c => match readPhase s c with
+    | .ok _ => [.rAcq, .rRel, .wAcq, .wRel]
+    | .error _ => [.rAcq, .rRel]
+
+/-- Number of locks held after a trace, starting from `held`; `none` if a lock is acquired while one
+    is already held (nesting) or released while none is held. -/
+def heldAfter : Nat → List LockEv → Option Nat
+  | h, [] => some h
+  | h, .rAcq :: t => if h = 0 then heldAfter 1 t else none
+  | h, .wAcq :: t => if h = 0 then heldAfter 1 t else none
+  | h, .rRel :: t => if h = 1 then heldAfter 0 t else none
+  | h, .wRel :: t => if h = 1 then heldAfter 0 t else none
+
+/-- Lock discipline: sections never nest and everything acquired is released. -/
+def Disciplined (tr : List LockEv) : Prop := heldAfter 0 tr = some 0
+
+instance (tr : List LockEv) : Decidable (Disciplined tr) := by unfold Disciplined; exact inferInstance
+
+end Moc.Store
